@@ -50,7 +50,8 @@ ASSUMPTIONS = [
     "adaptive bound is the lenient reading: count(i..j) <= max(1, Rmax*window) + Rmax*(t_j - t_i) with Rmax the largest rate in "
     "effect between the first policy query at instant t_i and admission j (tokens are only clamped at a refill)",
     f"'within a few steps' = at most {MAX_WAITS} waits of the returned duration",
-    "drain horizon in simulations = last arrival + (queue_capacity + 3) * slowest admission period + 1 s",
+    "drain horizon in simulations = last arrival + (queue_capacity + 3) * slowest admission period + 1 s "
+    "(Inductor: (4 * queue_capacity + 8) * largest inter-arrival gap + 1 s); kept alive by a non-daemon sentinel event, no end_time",
     "DistributedRateLimiter is checked for exactly-once and order only (no global bound is stated for it)",
 ]
 MUST_OBSERVE = ["acquires_checked", "tua_probes", "requests_tracked"]
@@ -243,11 +244,15 @@ def _pos(t: int, P: int, anchor: int = 0) -> str:
 
 
 def _zero_shape(t: int, P: int, anchor: int) -> str:
-    """Shape of a 'wait 0 but acquire fails' witness: where the lying instant sits."""
-    pos = _pos(t, P, anchor)
-    if pos in ("on-boundary", "boundary-1ns"):
-        return "at-or-1ns-before-period-boundary"
-    return pos
+    """Shape of a 'wait 0 but acquire fails' witness: where the lying instant sits.
+
+    Float window arithmetic can misplace a boundary by at most 2 ns (1 ns from truncating
+    k*w, 1 ns from truncating w itself), always towards the past.
+    """
+    r = (t - anchor) % P
+    if r == 0 or r >= P - 2:
+        return "at-or-within-2ns-before-period-boundary"
+    return _pos(t, P, anchor)
 
 
 def _clone(pol):
@@ -277,21 +282,20 @@ def _sig(pol) -> tuple:
     return tuple(out)
 
 
-def probe_truthfulness(res: Result, comp: str, kind: str, pol, t_ns: int, P: int, anchor: int):
-    """All on deep copies.  Returns nothing; adds violations to res."""
-    from happysimulator.core.temporal import Instant
-
+def probe_truthfulness(res: Result, comp: str, spec: dict, pol, t_ns: int, P: int, anchor: int):
+    """All on clones of the policy.  Returns nothing; adds violations to res."""
     before = _sig(pol)
     try:
-        _probe(res, comp, kind, pol, t_ns, P, anchor)
+        _probe(res, comp, spec, pol, t_ns, P, anchor)
     finally:
         if _sig(pol) != before:
             raise AssertionError("harness: probing on clones disturbed the real policy")
 
 
-def _probe(res: Result, comp: str, kind: str, pol, t_ns: int, P: int, anchor: int):
+def _probe(res: Result, comp: str, spec: dict, pol, t_ns: int, P: int, anchor: int):
     from happysimulator.core.temporal import Instant
 
+    kind = spec["kind"]
     c = _clone(pol)
     now = Instant(t_ns)
     w = c.time_until_available(now).nanoseconds
@@ -347,7 +351,7 @@ def _probe(res: Result, comp: str, kind: str, pol, t_ns: int, P: int, anchor: in
             break
         if waits >= MAX_WAITS:
             shape = pos
-            if kind == "adaptive" and c.current_rate * c._window_size < 1.0:
+            if kind == "adaptive" and c.current_rate * spec["params"]["window"] < 1.0:
                 shape = "rate-times-window-below-one-token"
             res.add(
                 "drain-stalls",
@@ -450,7 +454,6 @@ def run_policy(case: dict) -> Result:
     first_t = None
     # adaptive bookkeeping: rate after each op; index of first policy query at each instant
     rate_after: list[float] = []
-    query_ops: list[int] = []  # op indices that queried the real policy (a / p / q)
     for idx, (op, t) in enumerate(case["ops"]):
         now = Instant(t)
         if op in ("s", "f", "to"):
@@ -471,14 +474,13 @@ def run_policy(case: dict) -> Result:
         if _pos(t, P, anchor) == "on-boundary" and t != first_t:
             on_boundary += 1
         if op == "p":
-            probe_truthfulness(res, comp, kind, pol, t, P, anchor)
+            probe_truthfulness(res, comp, spec, pol, t, P, anchor)
         w = None
         if op == "q":
             w = pol.time_until_available(now).nanoseconds
             res.count("tua_probes")
         ok = pol.try_acquire(now)
         res.count("acquires_checked")
-        query_ops.append(idx)
         if w is not None:
             pos = _pos(t, P, anchor)
             if w == 0 and not ok:
@@ -556,7 +558,6 @@ def _adaptive_bound(res, comp, spec, ops, rate_after, admitted, admitted_op):
                     {"i": i, "j": j},
                 )
                 return
-        # absolute bound from max_rate
     return
 
 
@@ -752,13 +753,20 @@ def run_sim(case: dict) -> Result:
     _wrap(lim, log, poll_prefix)
     last = arrivals[-1] if arrivals else 0
     qc = case.get("queue_capacity", 0)
-    end_ns = last + (qc + 3) * slow + NS
-    ents = [lim, down]
+    # Inductor: the truncated poll delay lands 1 ns short of the smoothed interval, so only every
+    # other poll forwards; the horizon allows four polls per queued request.
+    periods = (4 * qc + 8) if which == "inductor" else (qc + 3)
+    end_ns = last + periods * slow + NS
+    stopper = H["Recorder"]("stop")
+    ents = [lim, down, stopper]
     feeder = None
     if case["inject"] == "feeder":
         feeder = H["Feeder"]("feeder")
         ents.append(feeder)
-    sim = Simulation(entities=ents, end_time=Instant(end_ns))
+    # No end_time (the engine executes one event beyond it and then drops that event's outputs):
+    # a non-daemon sentinel keeps the run alive until the horizon, then it auto-terminates.
+    sim = Simulation(entities=ents)
+    sim.schedule(Event(time=Instant(end_ns), event_type="stop", target=stopper))
     if feeder is None:
         for rid, t in enumerate(arrivals):
             sim.schedule(Event(time=Instant(t), event_type="req", target=lim, context={"metadata": {"rid": rid}}))
@@ -884,7 +892,7 @@ def run_sim(case: dict) -> Result:
                 "drain-stalled",
                 comp,
                 stag,
-                f"{lim.queue_depth} requests still queued {(end_ns - last) / NS:.3f}s after the last arrival (horizon {(qc + 3)} admission periods + 1s)",
+                f"{lim.queue_depth} requests still queued {(end_ns - last) / NS:.3f}s after the last arrival (horizon {periods} admission periods + 1s)",
             )
     for g in down.got:
         if g[0] != g[1]:
@@ -1073,14 +1081,14 @@ for _n, _sz in {"token": 1000, "leaky": 1000, "sliding": 1000, "fixed": 1000, "a
 BUDGET = {
     "quick": {"token": 2500, "leaky": 2000, "sliding": 2500, "fixed": 3000, "adaptive": 2500, "rle": 800, "inductor": 300, "dist": 150, "null": 40},
     "thorough": {
-        "token": 40000,
-        "leaky": 30000,
-        "sliding": 40000,
-        "fixed": 50000,
-        "adaptive": 40000,
-        "rle": 12000,
-        "inductor": 4000,
-        "dist": 2000,
-        "null": 400,
+        "token": 150000,
+        "leaky": 100000,
+        "sliding": 150000,
+        "fixed": 200000,
+        "adaptive": 150000,
+        "rle": 40000,
+        "inductor": 12000,
+        "dist": 5000,
+        "null": 1000,
     },
 }
